@@ -769,7 +769,9 @@ func (r *Runtime) regexpproto_stdMatcher(call FunctionCall) Value {
 	thisObj := r.toObject(call.This)
 	s := call.Argument(0).toString()
 	rx := r.checkStdRegexp(thisObj)
-	if rx == nil {
+	if rx == nil || (rx.pattern.global && rx.pattern.sticky) {
+		// a sticky sweep must restart exactly where AdvanceStringIndex leaves lastIndex after an
+		// empty match; findAllSubmatchIndex cannot express that, the generic protocol does
 		return r.regexpproto_stdMatcherGeneric(thisObj, s)
 	}
 	if rx.pattern.global {
@@ -1266,7 +1268,9 @@ func (r *Runtime) regexpproto_stdReplacer(call FunctionCall) Value {
 	replaceStr, rcall := getReplaceValue(call.Argument(1))
 
 	rx := r.checkStdRegexp(rxObj)
-	if rx == nil {
+	if rx == nil || rx.pattern.sticky {
+		// see regexpproto_stdMatcher: sticky matching is left to the generic protocol (the limit-1
+		// shortcuts of findAllSubmatchIndex do not check the match position either)
 		return r.regexpproto_stdReplacerGeneric(rxObj, s, replaceStr, rcall)
 	}
 
